@@ -338,6 +338,22 @@ def run(chk: Check, model):
         ok = len(norm) == 1 and norm[0].recv == new.term and norm[0].args == (T.mk_index(it, T.const(2)),) and dict(norm[0].kwargs) == {"clip": T.TRUE, "subtract_mean": T.FALSE} and r.ret[1][2] == norm[0].term
         ok = ok or (not norm and r.ret[1][2] == normalize_expansion(model, new.term, T.mk_index(it, T.const(2)), True, False))
         chk.add("C19.moments", "reward step: reward scaled with the updated state (clip, no mean subtraction)", ok, "the returned reward must be new_state.normalize(reward, clip=True, subtract_mean=False)", chk.loc(fi))
+    # the reward statistics start at the bare prior: no return has been observed at reset (the zero return accumulators are not samples)
+    fi_rr, r_rr = _r(model, "rl.NormalizeVecReward.reset")
+    chk.used("rl.NormalizeVecReward.reset")
+    nv_rr = [e for e in r_rr.events if e.kind == "call" and e.name == "new:NormalizeVec"]
+    inner_rr = [e for e in r_rr.events if e.kind == "call" and e.name == "self._env.reset"]
+    if len(nv_rr) == 1 and inner_rr and r_rr.ret[0] == "tuple" and r_rr.ret[1]:
+        f_rr = dict(nv_rr[0].term[2])
+        rv = f_rr.get("return_val", T.NONE)
+        okp = T.const_value(f_rr.get("mean", T.NONE)) == 0 and T.const_value(f_rr.get("var", T.NONE)) == 1 and T.const_value(f_rr.get("count", T.NONE)) == T.F(1, 10000) \
+            and T.call_name(rv) in ("jax.numpy.zeros", "jax.numpy.zeros_like")
+        chk.add("C19.moments", "reward reset: bare prior (mean 0, var 1, count 1e-4), zero return accumulators", okp, f"reset stores {T.show(nv_rr[0].term)[:220]}: nothing has been "
+                "observed at reset, so the statistics must start at the prior alone", chk.loc(fi_rr, nv_rr[0].node))
+        chk.add("C19.moments", "reward reset: state stored", _stored(r_rr, inner_rr[0].term, "norm_reward", nv_rr[0].term, r_rr.ret[1][0]),
+                "the initial statistics must be stored under aux['norm_reward'] of the state the wrapped environment returned", chk.loc(fi_rr))
+    else:
+        chk.unknown("C19.moments", "reward reset", f"expected one NormalizeVec construction in NormalizeVecReward.reset, found {len(nv_rr)}", chk.loc(fi_rr))
     fi, r = _r(model, "rl.NormalizeVec.normalize")
     ret = r.ret
     z = T.div(T.sub(S("x"), S("self.mean")), T.mk_call("jax.numpy.sqrt", [T.add(S("self.var"), T.const(T.F(1, 10 ** 8)))]))
